@@ -24,6 +24,37 @@ CLAIMED = {
         technique='Lean 4 proof (refinement impl-model = spec) + translator-regenerated definitions + differential correspondence'),
 }
 
+CLAIMED['C02'] = dict(
+    text='Lean theorem fast_exec_eq_spec: for every simple op and concat, all widths and in-range values, the Python '
+         'expression FastSimulation emits (templates, mask statement and _no_mask_bitwidth table regenerated from '
+         'simulation.py on every run, parsed back with Python precedence) equals the documented op table, hence '
+         'equals Simulation. PARTIAL: select-splitting of FastSimulation and the C backend (limb arithmetic, '
+         'hash-map memories, input packing) are covered by correspondence against the Spec model only (widths '
+         'across every 64-bit limb boundary); their theorems are still to be added.',
+    design='4 C02',
+    note=NOTE_COMMON + 'Modelled, not verified: gcc/ctypes/malloc, the inline-asm mul128, exec() of the generated Python.',
+    technique='Lean 4 proof over translator-regenerated emitter + differential correspondence with the Spec model')
+CLAIMED['C03'] = dict(
+    text='Lean theorems: the gate-level generators synthesize substitutes for + - = < > x (ripple adder, '
+         'complement-add subtractor, comparator chain, mux) compute the documented primitive for every operand '
+         'length (induction on the bit list). The Lean functions are tied to corecircuits._basic_* by exhaustive '
+         'truth-table comparison on every run; whole-design preservation (both merge settings, reset values, '
+         'memory maps, postcondition, map keys, original testbench) is checked by evaluating original and '
+         'synthesized netlists in the Lean Spec model. PARTIAL: _basic_mult and the per-net decomposition have '
+         'models/ties but no theorem yet.',
+    design='4 C03',
+    note=NOTE_COMMON + 'or_all_bits is modelled as List.any (tree shape not modelled).',
+    technique='Lean 4 proof by induction on bit lists + truth-table correspondence + netlist evaluation in the Lean Spec model')
+CLAIMED['C11'] = dict(
+    text='PARTIAL by nature. Lean theorems: clone_wire/_make_copy (regenerated from transform.py and memory.py) '
+         'preserve every attribute the semantics reads (including reset_value, ROM data, memory id), so the copy '
+         'is isomorphic and Spec.run-equal; a store model gives frame and freshness of allocation. CPython object '
+         'identity/aliasing is observed per run: fingerprints of the source before/after each non-updating pass, '
+         'working-block identity, id() disjointness, edit/simulate sequences on either block.',
+    design='4 C11',
+    note=NOTE_COMMON + 'CPython object identity and aliasing are observed, not modelled.',
+    technique='Lean 4 proof over translator-regenerated cloning functions + per-run observation of object identity')
+
 NOT_YET = {}
 
 
